@@ -294,6 +294,45 @@ def check_dunder_deps(run, f, rule='R7'):
         run.holds(rule, f.key, 'operand dependence', '%d value returns depend on both operands' % nret, f=f)
 
 
+def _squared_norm(e, f):
+    """text of e when it is a squared length: normsq(x), dot(x, x), x @ x, sum(x ** 2), sum(x * x), norm(x) ** 2 -- also through one local"""
+    from ..astutil import single_assignments
+    if isinstance(e, ast.Name):
+        sa = single_assignments(f.node)
+        if e.id in sa:
+            e = sa[e.id]
+    t = ast.unparse(e)
+    if isinstance(e, ast.Call):
+        fn = e.func.attr if isinstance(e.func, ast.Attribute) else (e.func.id if isinstance(e.func, ast.Name) else '')
+        if fn == 'normsq':
+            return t
+        if fn in ('dot', 'inner', 'vdot') and len(e.args) == 2 and ast.dump(e.args[0]) == ast.dump(e.args[1]):
+            return t
+        if fn == 'sum' and e.args and isinstance(e.args[0], ast.BinOp) and (
+                (isinstance(e.args[0].op, ast.Pow) and isinstance(e.args[0].right, ast.Constant) and e.args[0].right.value == 2) or
+                (isinstance(e.args[0].op, ast.Mult) and ast.dump(e.args[0].left) == ast.dump(e.args[0].right))):
+            return t
+    if isinstance(e, ast.BinOp) and isinstance(e.op, ast.MatMult) and ast.dump(e.left) == ast.dump(e.right):
+        return t
+    if isinstance(e, ast.BinOp) and isinstance(e.op, ast.Pow) and isinstance(e.right, ast.Constant) and e.right.value == 2 and isinstance(e.left, ast.Call):
+        fn = e.left.func.attr if isinstance(e.left.func, ast.Attribute) else (e.left.func.id if isinstance(e.left.func, ast.Name) else '')
+        if fn == 'norm':
+            return t
+    return None
+
+
+def _linear_eps(e):
+    """text of e when it is k * eps (one factor of the machine epsilon, not squared)"""
+    names = [y.id for y in ast.walk(e) if isinstance(y, ast.Name)] + [y.attr for y in ast.walk(e) if isinstance(y, ast.Attribute)]
+    if not any(nm in ('_eps', 'eps', 'EPS') for nm in names):
+        return None
+    if any(isinstance(y, ast.Pow) for y in ast.walk(e)):
+        return None
+    if isinstance(e, ast.BinOp) and isinstance(e.op, ast.Mult) and ast.dump(e.left) == ast.dump(e.right):
+        return None
+    return ast.unparse(e)
+
+
 def check_duplicates(run, f, rule='R7'):
     n = 0
     found = False
@@ -320,6 +359,13 @@ def check_duplicates(run, f, rule='R7'):
                               f=f, node=x)
         elif isinstance(x, ast.Compare) and len(x.ops) == 1 and isinstance(x.ops[0], (ast.Lt, ast.LtE, ast.Gt, ast.GtE)) and not isinstance(x.left, ast.Constant):
             n += 1
+            sq = _squared_norm(x.left, f) or _squared_norm(x.comparators[0], f)
+            lin = _linear_eps(x.comparators[0]) if _squared_norm(x.left, f) else _linear_eps(x.left)
+            if sq and lin:
+                found = True
+                run.violation(rule, f.key, 'squared length against a length tolerance ' + src(x, 60), 'a SQUARED length (%s) is compared with a tolerance that is '
+                              'linear in eps (%s): the effective threshold on the length is sqrt(k eps) ~ 1e-7 instead of k eps ~ 1e-14, so short non-zero '
+                              'vectors are taken for zero' % (sq, lin), f=f, node=x)
             if ast.dump(x.left) == ast.dump(x.comparators[0]):
                 found = True
                 run.violation(rule, f.key, 'self comparison ' + src(x, 80), 'comparison of an expression with itself', f=f, node=x)
@@ -495,6 +541,30 @@ def check_helper_operand_order(run, rule='R7o'):
                                   'product is reversed)' % (p1, p0, src(op, 30) if op is not None else ''), f=f, node=c)
             else:
                 run.undecided(rule, f.key, construct, 'receiver / argument of the helper call are not the two operands', f=f, node=c)
+    # delegation of the SAME operator to another implementation keeps the operands in order: Base.__mul__(left, right),
+    # left.__mul__(right), super().__mul__(right); with the two exchanged a non-commutative product is reversed
+    NONCOMM = {'__mul__', '__matmul__', '__truediv__', '__sub__', '__pow__', '__floordiv__'}
+    for f in prog.analysed_functions():
+        if f.cls is None or f.parent is not None or f.name not in NONCOMM or len(f.params) < 2:
+            continue
+        p0, p1 = f.params[0], f.params[1]
+        for c in own_walk(f.node):
+            if not (isinstance(c, ast.Call) and isinstance(c.func, ast.Attribute) and c.func.attr == f.name):
+                continue
+            a = b = None
+            recv = c.func.value
+            if isinstance(recv, ast.Name) and recv.id in (p0, p1) and len(c.args) == 1:
+                a, b = recv, c.args[0]                                    # x.__mul__(y)
+            elif len(c.args) == 2 and not (isinstance(recv, ast.Name) and recv.id in (p0, p1)):
+                a, b = c.args[0], c.args[1]                               # Base.__mul__(x, y)
+            if not (isinstance(a, ast.Name) and isinstance(b, ast.Name)):
+                continue
+            construct = 'delegation ' + src(c, 50)
+            if a.id == p0 and b.id == p1:
+                run.holds(rule, f.key, construct, 'the same operator is delegated with (left, right) in order', f=f, node=c)
+            elif a.id == p1 and b.id == p0:
+                run.violation(rule, f.key, construct, '%s delegates to another implementation of the same operator with its operands exchanged: the result is '
+                              '%s %s %s, not %s %s %s (the product does not commute)' % (f.name, p1, f.name.strip('_'), p0, p0, f.name.strip('_'), p1), f=f, node=c)
     if n < 20:
         run.error('R7o: only %d helper calls in forward binary operators found (expected >= 20)' % n)
     return n
